@@ -12,6 +12,7 @@ def cfg_impl(watch, extra=""):
 class Bundle:
     def __init__(self, path):
         self.b = json.load(open(path))
+        self.b["systems"] = self.b.get("systems") or []   # every case of a replay may have panicked
         self.by_name = {}
         for s in self.b["systems"]:
             em = {}
@@ -177,8 +178,15 @@ def _table_check(prop, fam, tier, seed, replay, work, known, t0):
         evs = p.get("path") or []
         impl = p["system"].split("#")[0]
         key = (impl, ("Panic",), evs[-1].get("op") if evs else "init", "")
+        pcfg = {"nsubs": fam.get("nsubs", 3)}
+        if p.get("cfg"):
+            pcfg = dict(p["cfg"])
+        for sysm in ([] if p.get("cfg") else bundle.b["systems"]):       # the configuration of the system that panicked, if its table was emitted
+            if sysm["name"] == p["system"] or sysm["name"].split("#")[0] == impl:
+                pcfg = dict(sysm.get("cfg") or pcfg)
+                break
         sig = dict(impl=impl.split("/")[0], system=p["system"], clauses=["Panic"], last_op=key[2], ops=sorted({e.get("op") for e in evs}), events=evs,
-                   cfg={"nsubs": fam.get("nsubs", 3)}, msg=p["msg"][:300])
+                   cfg=pcfg, msg=p["msg"][:300])
         if key not in groups or len(evs) < len(groups[key]["events"]):
             groups[key] = sig
 
@@ -198,7 +206,10 @@ def _table_check(prop, fam, tier, seed, replay, work, known, t0):
         rb = os.path.join(routdir, "bundle.json")
         rstats = json.load(open(os.path.join(routdir, "stats.json")))
         rbundle = Bundle(rb)
-        rres, rviols = _run_impl_tlc(fam, watch, work, rb, "replay")
+        if rbundle.b["systems"]:
+            rres, rviols = _run_impl_tlc(fam, watch, work, rb, "replay")
+        else:
+            rviols = []          # every replayed case panicked: nothing for the monitor to walk
         confirmed = collections.defaultdict(set)
         for v in rviols:
             confirmed[v["system"].split("#")[-1]] |= set(v["clauses"])
